@@ -1,7 +1,6 @@
 package main
 
 import (
-	"os"
 	"regexp"
 	"fmt"
 	"go/token"
@@ -1050,9 +1049,6 @@ func (s *pSite) emitContexts() []emitCtx {
 				if o := callee.Origin(); o != nil {
 					callee = o
 				}
-				if os.Getenv("ROVC_DEBUG") == "3" && strings.Contains(callee.Name(), "zipAll") {
-					fmt.Fprintf(os.Stderr, "P4-HELPER %s blocks=%v parent=%v pkg=%v subpkg=%v\n", callee.Name(), callee.Blocks != nil, callee.Parent() != nil, callee.Pkg, s.Subscribe.Pkg)
-				}
 				if callee.Blocks == nil || callee.Parent() != nil || callee.Signature.Recv() != nil || callee.Pkg == nil || s.Subscribe.Pkg == nil || callee.Pkg != s.Subscribe.Pkg {
 					continue
 				}
@@ -1062,42 +1058,10 @@ func (s *pSite) emitContexts() []emitCtx {
 						getsDest = true
 					}
 				}
-				if os.Getenv("ROVC_DEBUG") == "3" && strings.Contains(callee.Name(), "zipAll") {
-					fmt.Fprintf(os.Stderr, "P4-HELPER getsDest=%v\n", getsDest)
-				}
 				if !getsDest {
 					continue
 				}
-				subscribes, inLoopSub := false, false
-				for _, cf := range closureTree(callee) {
-					for _, cb := range cf.Blocks {
-						for _, ci := range cb.Instrs {
-							if c2, ok := ci.(*ssa.Call); ok {
-								if c2.Common().IsInvoke() && strings.HasPrefix(c2.Common().Method.Name(), "Subscribe") {
-									subscribes = true
-									if inLoop(c2) {
-										inLoopSub = true
-									}
-								}
-								// a helper that calls another subscribing helper in a loop
-								f2 := c2.Common().StaticCallee()
-								if f2 != nil && f2.Origin() != nil {
-									f2 = f2.Origin() // an instantiation of a generic helper has no package of its own
-								}
-								if os.Getenv("ROVC_DEBUG") == "3" && f2 != nil && strings.Contains(callee.Name(), "zipAll") {
-									fmt.Fprintf(os.Stderr, "P4-HELPER inner %s pkgsame=%v blocks=%v inloop=%v\n", f2.Name(), f2.Pkg == callee.Pkg, f2.Blocks != nil, inLoop(c2))
-								}
-								if f2 != nil && f2.Pkg == callee.Pkg && f2.Blocks != nil && inLoop(c2) {
-									for _, a := range c2.Common().Args {
-										if isParamValue(a, callee) && (hasMethod(a.Type(), "NextWithContext") || hasMethod(a.Type(), "ErrorWithContext") || hasMethod(stripIface(a).Type(), "NextWithContext")) {
-											subscribes, inLoopSub = true, true
-										}
-									}
-								}
-							}
-						}
-					}
-				}
+				subscribes, inLoopSub := helperSubscribes(callee, 0)
 				if subscribes {
 					out = append(out, emitCtx{Kind: "triple", Name: "helper " + callee.Name(), Many: inLoopSub || inLoop(call) || fn != s.Subscribe, Pos: call.Pos()})
 				}
@@ -1680,4 +1644,53 @@ func stripIface(v ssa.Value) ssa.Value {
 			return v
 		}
 	}
+}
+
+// helperSubscribes: a package-level helper that is handed the destination subscribes observers that emit into it -
+// directly, or through another helper of the package it passes one of its own parameters to (zipSources ->
+// zipAllInnerSubscriptions -> zipInnerSubscription). The second result says the subscription happens in a loop.
+func helperSubscribes(callee *ssa.Function, depth int) (subscribes, inLoopSub bool) {
+	if depth > 3 {
+		return
+	}
+	for _, cf := range closureTree(callee) {
+		for _, cb := range cf.Blocks {
+			for _, ci := range cb.Instrs {
+				c2, ok := ci.(*ssa.Call)
+				if !ok {
+					continue
+				}
+				if c2.Common().IsInvoke() && strings.HasPrefix(c2.Common().Method.Name(), "Subscribe") {
+					subscribes = true
+					if inLoop(c2) {
+						inLoopSub = true
+					}
+				}
+				f2 := c2.Common().StaticCallee()
+				if f2 != nil && f2.Origin() != nil {
+					f2 = f2.Origin() // an instantiation of a generic helper has no package of its own
+				}
+				if f2 == nil || f2 == callee || f2.Pkg == nil || f2.Pkg != callee.Pkg || f2.Blocks == nil || f2.Parent() != nil || f2.Signature.Recv() != nil {
+					continue
+				}
+				handsOn := false
+				for _, a := range c2.Common().Args {
+					if isParamValue(a, callee) && (hasMethod(a.Type(), "NextWithContext") || hasMethod(a.Type(), "ErrorWithContext") || hasMethod(stripIface(a).Type(), "NextWithContext")) {
+						handsOn = true
+					}
+				}
+				if !handsOn {
+					continue
+				}
+				s2, l2 := helperSubscribes(f2, depth+1)
+				if s2 {
+					subscribes = true
+					if l2 || inLoop(c2) {
+						inLoopSub = true
+					}
+				}
+			}
+		}
+	}
+	return
 }
